@@ -541,27 +541,75 @@ Definition compile_main (lg : bool) (d : fdef) (codata : list ctydecl) (used_lab
 Definition compile_data (d : fdata) : ctydecl := mkct CData (new_id (fdaname d)) (map compile_ctor (fdactors d)).
 Definition compile_codata (d : fcodata) : ctydecl := mkct CCodata (new_id (fcoaname d)) (map compile_dtor (fcodtors d)).
 
+(* ---------- calls_main: `calls(term, "main")` of program.rs ----------
+   Until fix <commitmain> of /repo (legacy flag) compile_main gave the Core definition `main` no return-continuation
+   parameter (its body ends in `exit`), but wc_call passes `args ++ [continuation]` to every callee: a call whose
+   target is `main` had one argument too many; the Core machine was stuck "call-arity", natively the extra argument
+   was ignored and the callee exited the process instead of returning (former finding call-to-main).
+   [calls_main t]: some call in t targets `main`.  The repaired compile_prog asks it of every definition body. *)
+Fixpoint calls_main (t : fterm) : bool :=
+  let any := fix go (l : list fterm) : bool :=
+    match l with [] => false | y :: r => calls_main y || go r end in
+  let any_cls := fix go (l : list fclause) : bool :=
+    match l with [] => false | FClause _ _ _ _ body :: r => calls_main body || go r end in
+  match t with
+  | FVar _ _ _ | FLit _ => false
+  | FOp a _ b => calls_main a || calls_main b
+  | FIfC _ a b t1 t2 _ =>
+      calls_main a || (match b with Some b' => calls_main b' | None => false end) || calls_main t1 || calls_main t2
+  | FPrint _ a next _ => calls_main a || calls_main next
+  | FLet _ _ bound body _ => calls_main bound || calls_main body
+  | FCall f args _ => String.eqb f "main" || any args
+  | FCtor _ args _ => any args
+  | FDtor scrut _ _ args _ => calls_main scrut || any args
+  | FCase scrut _ cls _ => calls_main scrut || any_cls cls
+  | FNew cls _ => any_cls cls
+  | FLabel _ t' _ => calls_main t'
+  | FGoto _ t' _ => calls_main t'
+  | FExit a _ => calls_main a
+  | FParen t' => calls_main t'
+  end.
+Definition calls_main_prog (p : fcprog) : bool := existsb (fun d => calls_main (fdbody d)) (fcpdefs p).
+
+(* entry_def: the entry point of a program in which main is called,  def <name>(params) { main(params) } *)
+Definition entry_fdef (d : fdef) (name : string) : fdef :=
+  mkfdef name (fdctx d) (fdret d)
+    (FCall (fdname d) (map (fun b => FVar (fbvar b) (Some (fbty b)) (Some (fbchi b))) (fdctx d)) (Some (fdret d))).
+
+(* the definitions that come first: usually compile_main of `main`; when main is called somewhere in the program
+   (and not in legacy mode = the translation before the fixes): the entry point under a fresh label, compiled by
+   compile_main (its body becomes  main(params, mu~x. exit x)), then `main` compiled like any other definition *)
+Definition compile_main_group (lg called : bool) (d : fdef) (codata : list ctydecl) (used_labels : list string)
+  : res (list cdef * list string) :=
+  if called && negb lg then
+    let (nm, ul1) := fresh_name used_labels "main" in
+    dor e <- compile_main lg (entry_fdef d nm) codata ul1;
+    dor m <- compile_def lg d codata (snd e);
+    Ok (fst e ++ fst m, snd m)
+  else compile_main lg d codata used_labels.
+
 (* front = definitions moved to the front (main groups), back = the others, reversed groups *)
-Fixpoint compile_defs (lg : bool) (defs : list fdef) (codata : list ctydecl) (used_labels : list string)
+Fixpoint compile_defs (lg called : bool) (defs : list fdef) (codata : list ctydecl) (used_labels : list string)
          (front : list cdef) (back_rev : list cdef) : res (list cdef) :=
   match defs with
   | [] => Ok (front ++ rev_append back_rev [])
   | d :: r =>
       if String.eqb (fdname d) "main" then
-        dor g <- compile_main lg d codata used_labels;
-        compile_defs lg r codata (snd g) (fst g ++ front) back_rev
+        dor g <- compile_main_group lg called d codata used_labels;
+        compile_defs lg called r codata (snd g) (fst g ++ front) back_rev
       else
         dor g <- compile_def lg d codata used_labels;
-        compile_defs lg r codata (snd g) front (rev_append (fst g) back_rev)
+        compile_defs lg called r codata (snd g) front (rev_append (fst g) back_rev)
   end.
 
 Definition compile_prog_gen (lg : bool) (p : fcprog) : res cprog :=
   let data_types := map compile_data (fcpdata p) in
   let codata_types := map compile_codata (fcpcodata p) in
   let used_labels := map fdname (fcpdefs p) in
-  dor defs <- compile_defs lg (fcpdefs p) codata_types used_labels [] [];
+  dor defs <- compile_defs lg (calls_main_prog p) (fcpdefs p) codata_types used_labels [] [];
   Ok (mkcp defs data_types codata_types 0).
-(* the current translation, and the one before fix 126604b (regression lemma only) *)
+(* the current translation, and the one before the fixes 126604b (goto), d5d4151 (capture) and <commitmain> (calls of
+   main) of /repo (regression lemmas only) *)
 Definition compile_prog (p : fcprog) : res cprog := compile_prog_gen false p.
 Definition compile_prog_before_fix (p : fcprog) : res cprog := compile_prog_gen true p.
 
@@ -840,35 +888,8 @@ Fixpoint goto_type_mismatch (env : list (string * option fty)) (t : fterm) : boo
 Definition goto_type_mismatch_prog (p : fcprog) : bool :=
   existsb (fun d => goto_type_mismatch (env_of_ctx (fdctx d) []) (fdbody d)) (fcpdefs p).
 
-(* ---------- calls_main: the third defect class (call-to-main) ----------
-   compile_main gives the Core definition `main` no return-continuation parameter (its body ends in
-   `exit`), but wc_call passes `args ++ [continuation]` to every callee: a call whose target is `main`
-   has one argument too many; the Core machine is stuck "call-arity", natively the extra argument is
-   ignored and the callee exits the process instead of returning.  [calls_main t]: some call in t
-   targets `main`. *)
-Fixpoint calls_main (t : fterm) : bool :=
-  let any := fix go (l : list fterm) : bool :=
-    match l with [] => false | y :: r => calls_main y || go r end in
-  let any_cls := fix go (l : list fclause) : bool :=
-    match l with [] => false | FClause _ _ _ _ body :: r => calls_main body || go r end in
-  match t with
-  | FVar _ _ _ | FLit _ => false
-  | FOp a _ b => calls_main a || calls_main b
-  | FIfC _ a b t1 t2 _ =>
-      calls_main a || (match b with Some b' => calls_main b' | None => false end) || calls_main t1 || calls_main t2
-  | FPrint _ a next _ => calls_main a || calls_main next
-  | FLet _ _ bound body _ => calls_main bound || calls_main body
-  | FCall f args _ => String.eqb f "main" || any args
-  | FCtor _ args _ => any args
-  | FDtor scrut _ _ args _ => calls_main scrut || any args
-  | FCase scrut _ cls _ => calls_main scrut || any_cls cls
-  | FNew cls _ => any_cls cls
-  | FLabel _ t' _ => calls_main t'
-  | FGoto _ t' _ => calls_main t'
-  | FExit a _ => calls_main a
-  | FParen t' => calls_main t'
-  end.
-Definition calls_main_prog (p : fcprog) : bool := existsb (fun d => calls_main (fdbody d)) (fcpdefs p).
+(* calls_main / calls_main_prog (the detector of the former finding call-to-main; since fix <commitmain> part of the
+   translation itself): see the section program.rs above *)
 
 (* the witness (corpus/fun/call_main_nontail.sc as the type checker annotates it; tied to the real
    CheckedProgram by modelrun like capture_witness) *)
